@@ -300,7 +300,7 @@ theorem vmp_raw_in_bounds (n rows colsIn colsOut size w : Nat) :
 example : (vmpRawRange (allocVmp 4 2 2 3 2 32)).2 = 3072 := by decide
 
 /-- the degenerate shapes are rejected: on a matrix with zero rows or zero output columns (empty buffer) every
-`at(i,j)` is the accessor's assertion failure, never a slice (repair 4e7ed9a of the finding recorded in round 2) -/
+`at(i,j)` is the accessor's assertion failure, never a slice (repair 3faf6c4 of the finding recorded in round 2) -/
 theorem vmp_at_degenerate_rejected (n rows colsIn colsOut size w i j : Nat) (hn : 0 < n) (hz : rows = 0 ∨ colsOut = 0) :
     okVal (vmpAtRange (allocVmp n rows colsIn colsOut size w) i j) = none := by
   unfold vmpAtRange allocVmp
